@@ -109,6 +109,11 @@ func DeeperSetter(link Link, node Node, target Gindex, expand bool) (Link, error
 			if !expand {
 				return nil, NavigationError
 			}
+			// only the summary of a zero subtree can be expanded: anything else is
+			// a summary of data that is not available here
+			if node.MerkleRoot(nil) != ZeroHashes[depth+1] {
+				return nil, NavigationError
+			}
 			child := ZeroNode(depth)
 			node = NewPairNode(child, child)
 		}
